@@ -113,9 +113,14 @@ func (w *serverWorld) handle(ctx context.Context, p *payloads.ActivateRequestPay
 		w.s.Eventf("handler end %s", id)
 	}()
 	var result error
+	answerWithPlaceholder := false
 	for _, a := range tokenActions(tok) {
 		switch {
 		case a == "ok" || a == "":
+		case a == "pu":
+			// the operation resolves its object through the placeholder and names it in its response, as a Destroy
+			// or Activate without an explicit identifier does
+			answerWithPlaceholder = true
 		case a == "et":
 			result = kmipserver.Errorf(kmip.ResultReasonItemNotFound, "typed failure of %s", id)
 		case a == "ep":
@@ -231,6 +236,11 @@ func (w *serverWorld) handle(ctx context.Context, p *payloads.ActivateRequestPay
 	if result != nil {
 		return nil, result
 	}
+	if answerWithPlaceholder {
+		if v := kmipserver.IdPlaceholder(ctx); v != "" {
+			return &payloads.ActivateResponsePayload{UniqueIdentifier: v}, nil
+		}
+	}
 	return &payloads.ActivateResponsePayload{UniqueIdentifier: tok}, nil
 }
 
@@ -262,7 +272,55 @@ func newServerWorld(x *X) *serverWorld {
 		}
 		return &payloads.RevokeResponsePayload{UniqueIdentifier: r.UniqueIdentifier}, nil
 	}))
+	w.exec.Route(kmip.OperationDestroy, kmipserver.HandleFunc(func(ctx context.Context, p *payloads.DestroyRequestPayload) (*payloads.DestroyResponsePayload, error) {
+		r, err := w.handle(ctx, &payloads.ActivateRequestPayload{UniqueIdentifier: p.UniqueIdentifier})
+		if err != nil || r == nil {
+			return nil, err
+		}
+		return &payloads.DestroyResponsePayload{UniqueIdentifier: r.UniqueIdentifier}, nil
+	}))
+	w.exec.Route(kmip.OperationArchive, kmipserver.HandleFunc(func(ctx context.Context, p *payloads.ArchiveRequestPayload) (*payloads.ArchiveResponsePayload, error) {
+		r, err := w.handle(ctx, &payloads.ActivateRequestPayload{UniqueIdentifier: p.UniqueIdentifier})
+		if err != nil || r == nil {
+			return nil, err
+		}
+		return &payloads.ArchiveResponsePayload{UniqueIdentifier: r.UniqueIdentifier}, nil
+	}))
+	w.exec.Route(kmip.OperationRecover, kmipserver.HandleFunc(func(ctx context.Context, p *payloads.RecoverRequestPayload) (*payloads.RecoverResponsePayload, error) {
+		r, err := w.handle(ctx, &payloads.ActivateRequestPayload{UniqueIdentifier: p.UniqueIdentifier})
+		if err != nil || r == nil {
+			return nil, err
+		}
+		return &payloads.RecoverResponsePayload{UniqueIdentifier: r.UniqueIdentifier}, nil
+	}))
 	return w
+}
+
+// responseIdentifier returns the identifier carried by the response payload of any of the routed operations.
+func responseIdentifier(pl kmip.OperationPayload) (string, bool) {
+	switch p := pl.(type) {
+	case *payloads.ActivateResponsePayload:
+		if p != nil {
+			return p.UniqueIdentifier, true
+		}
+	case *payloads.RevokeResponsePayload:
+		if p != nil {
+			return p.UniqueIdentifier, true
+		}
+	case *payloads.DestroyResponsePayload:
+		if p != nil {
+			return p.UniqueIdentifier, true
+		}
+	case *payloads.ArchiveResponsePayload:
+		if p != nil {
+			return p.UniqueIdentifier, true
+		}
+	case *payloads.RecoverResponsePayload:
+		if p != nil {
+			return p.UniqueIdentifier, true
+		}
+	}
+	return "", false
 }
 
 // startServer creates the listener and runs Serve in a harness task.
@@ -305,7 +363,7 @@ func (w *serverWorld) serverTasksAlive() []*simrt.Task { return w.s.AliveSUT("km
 
 type ItemSc struct {
 	Tok  string `json:"tok"`             // handler script: actions part of the token
-	Op   string `json:"op,omitempty"`    // "" routed Activate | "unrouted" (Destroy, no route) | "discover" (built-in DiscoverVersions)
+	Op   string `json:"op,omitempty"`    // "" routed Activate | "unrouted" (Obtain Lease, no route) | "discover" (built-in DiscoverVersions) | "unknown" | "destroy", "archive", "recover", "revoke": other routed operations with the same scripted handler
 	NoID bool   `json:"no_id,omitempty"` // no UniqueBatchItemID
 	Ext  string `json:"ext,omitempty"`   // "" | "plain" | "critical" message extension
 }
@@ -459,7 +517,15 @@ func buildRequest(rs *ReqSc, prefix string) *kmip.RequestMessage {
 		id := fmt.Sprintf("%s.%d", prefix, i)
 		var bi kmip.RequestBatchItem
 		if it.Op == "unrouted" {
+			bi = kmip.RequestBatchItem{Operation: kmip.OperationObtainLease, RequestPayload: &payloads.ObtainLeaseRequestPayload{UniqueIdentifier: id + "|" + it.Tok}}
+		} else if it.Op == "destroy" {
 			bi = kmip.RequestBatchItem{Operation: kmip.OperationDestroy, RequestPayload: &payloads.DestroyRequestPayload{UniqueIdentifier: id + "|" + it.Tok}}
+		} else if it.Op == "archive" {
+			bi = kmip.RequestBatchItem{Operation: kmip.OperationArchive, RequestPayload: &payloads.ArchiveRequestPayload{UniqueIdentifier: id + "|" + it.Tok}}
+		} else if it.Op == "recover" {
+			bi = kmip.RequestBatchItem{Operation: kmip.OperationRecover, RequestPayload: &payloads.RecoverRequestPayload{UniqueIdentifier: id + "|" + it.Tok}}
+		} else if it.Op == "revoke" {
+			bi = kmip.RequestBatchItem{Operation: kmip.OperationRevoke, RequestPayload: &payloads.RevokeRequestPayload{UniqueIdentifier: id + "|" + it.Tok}}
 		} else if it.Op == "unknown" {
 			// an operation code the library has never heard of, with an opaque payload
 			bi = kmip.RequestBatchItem{Operation: kmip.Operation(0x7E), RequestPayload: kmip.NewUnknownPayload(kmip.Operation(0x7E), ttlv.Value{Tag: 0x420094, Value: id + "|" + it.Tok})}
